@@ -2320,12 +2320,19 @@ class XGen(KGen):
                 for _ in range(r.choice([1, 1, 2])):
                     k = r.random()
                     e = None
-                    if k < 0.5:
+                    if k < 0.4:
                         e = self.eff(fl, ps)
-                    elif k < 0.65:
+                    elif k < 0.52:
                         e = self.eff(fl, ps, cond=self.plain(fl, ps))
-                    elif k < 0.75:
+                    elif k < 0.6:
                         e = self.eff(fl, ps, forall=True)
+                    elif k < 0.72:
+                        # the effect attributes are independent: conditional AND forall (AND increase/decrease) in ONE effect, so that
+                        # a feature reported through an if/elif chain over the attributes is seen (seeded change C10-2)
+                        e = self.eff(fl, ps, forall=True, cond=self.plain(fl, ps),
+                                     kind=r.choice([None, None, "increase", "decrease"]))
+                    elif k < 0.78:
+                        e = self.eff(fl, ps, cond=self.plain(fl, ps), kind=r.choice(["increase", "decrease"]))
                     elif k < 0.9:
                         e = self.eff(fl, ps, kind=r.choice(["increase", "decrease"]))
                     elif not seen_only:
